@@ -153,7 +153,8 @@ Theorem C18_spellings_that_mean_the_same : forall parse_float regex_match,
   (forall i g0 gn g1, same_step parse_float regex_match (FE i) (FES false g0 gn i g1) /\ same_step parse_float regex_match (FN i) (FES true g0 gn i g1)) /\
   (forall g0 d, same_step parse_float regex_match (FQ (unspace_dnf d)) (FQS g0 d)) /\
   (forall t, same_step parse_float regex_match (FT t) (FT (TP t))) /\
-  (forall i o lit, same_step parse_float regex_match (FQ [[BC i o lit]]) (FQ [[BCL lit (mirror_op o) i]])).
+  (forall i o lit, same_step parse_float regex_match (FQ [[BC i o lit]]) (FQ [[BCL lit (mirror_op o) i]])) /\
+  (forall i ne l, same_step parse_float regex_match (FQ [[BL i ne l]]) (FQ [[BLL l ne i]])).
 Proof.
   intros pf rm.
   split; [intros q k; split; [apply same_plain|apply same_rec]; intros lv; apply name_spellings|].
@@ -169,7 +170,8 @@ Proof.
   split; [intros i g0 gn g1; apply spaced_filter_spellings|].
   split; [intros g0 d; apply spaced_query_spellings|].
   split; [intros t; apply parenthesised_query_spellings|].
-  intros i o lit. apply literal_left_spellings.
+  split; [intros i o lit; apply literal_left_spellings|].
+  intros i ne l. apply typed_literal_left_spellings.
 Qed.
 Print Assumptions C18_spellings_that_mean_the_same.
 
